@@ -191,6 +191,17 @@ func init() {
 		c06Head(s, e, opt, "newOptions", "newOptionsHead", "if o.Expiry")
 		c06Assigns(s, e, opt, "WithExpiry", "withExpiryAssigns")
 		c06Assigns(s, e, opt, "WithNotFoundExpiry", "withNotFoundExpiryAssigns")
+		// round 3: IsNotFound (the configured errNotFound decides) and the context-free wrappers of the node, the
+		// cluster and CachedConn (monc uses Get / Set; each must hand the same key / value / expiry / query on)
+		c06Facts(s, e, node, "cacheNode.IsNotFound", "isNotFoundFacts", "Is")
+		c06Facts(s, e, "core/stores/cache/cache.go", "cacheCluster.IsNotFound", "clusterIsNotFoundFacts", "Is")
+		for _, w := range []string{"Del", "Get", "Set", "SetWithExpire", "Take", "TakeWithExpire"} {
+			c06Facts(s, e, node, "cacheNode."+w, "nodeW"+w+"Facts", w+"Ctx")
+			c06Facts(s, e, "core/stores/cache/cache.go", "cacheCluster."+w, "clusterW"+w+"Facts", w+"Ctx")
+		}
+		for _, w := range []string{"DelCache", "GetCache", "Exec", "QueryRow", "QueryRowIndex", "SetCache", "SetCacheWithExpire"} {
+			c06Facts(s, e, sqlc, "CachedConn."+w, "sqlcW"+w+"Facts", w+"Ctx")
+		}
 		e.shapeDef(s, node, "cacheNode.doGetCache", "doGetCacheShape")
 		e.shapeDef(s, node, "cacheNode.doTake", "doTakeShape")
 		e.shapeDef(s, node, "cacheNode.processCache", "processCacheShape")
